@@ -372,6 +372,7 @@ class Check:
             families={k: dict(queries=v[0], proved=v[1]) for k, v in sorted(fams.items())},
             solver_secs=round(self.solver_secs, 2),
             vacuity_witnesses_ok=self.witnesses,
+            slowest=[dict(key=o["key"], secs=round(o["secs"], 2)) for o in sorted(self.obl, key=lambda o: -o["secs"])[:5]],
             known_findings_hit=[o["key"] for o in known_hit],
             inconclusive=[o["key"] for o in inconc], mismatches=[o["key"] for o in mism],
             explanation="bounded symbolic checking; see bounds/outside_claim",
